@@ -58,6 +58,7 @@ type lineIn struct {
 	TS    int64  `json:"ts,omitempty"`    //   "
 	Off   int    `json:"off,omitempty"`   // padding in front of the datagram in the arena
 	Slack int    `json:"slack,omitempty"` // spare bytes behind it
+	From  string `json:"from,omitempty"`  // stream recv over a scripted conn: sender of the datagram this line closes
 	NS    string `json:"lns,omitempty"`   // stream lexseq: namespace of this Lexer.Run call
 	Put   bool   `json:"put,omitempty"`   // stream lexseq: an accepted metric goes back to the pool (with stale fields)
 }
@@ -75,6 +76,7 @@ type input struct {
 	Batch   int   `json:"batch,omitempty"`
 	DelayUs int   `json:"delay_us,omitempty"` // the handler sleeps this long per dispatched map
 	QuietMs []int `json:"quiet_ms,omitempty"` // silence after each burst
+	Sock    string `json:"sock,omitempty"`    // "udp" (loopback socket, default) | "script" (scripted net.PacketConn, per-datagram senders)
 }
 
 type dgram struct {
@@ -82,6 +84,7 @@ type dgram struct {
 	ts         int64
 	msg        []byte
 	off, slack int
+	from       string
 }
 
 func assemble(in input) [][]dgram {
@@ -90,7 +93,7 @@ func assemble(in input) [][]dgram {
 	var cur []byte
 	open := false
 	closeDg := func(l lineIn) {
-		batch = append(batch, dgram{ip: l.IP, ts: l.TS, msg: cur, off: l.Off, slack: l.Slack})
+		batch = append(batch, dgram{ip: l.IP, ts: l.TS, msg: cur, off: l.Off, slack: l.Slack, from: l.From})
 		cur, open = nil, false
 	}
 	for _, l := range in.Lines {
